@@ -1108,14 +1108,15 @@ def shareSig (h : Heap) (r o : Ref) : String :=
       (match foot h r with | some fr => if fr.md = x.md then "M" else "" | none => "")
   | _ => ""
 
-/-- Sharing signature of a new composite `c` against live object `o`: per member, and `L` when they hold
-    the same Location object. -/
+/-- Sharing signature of a new composite `c` against live object `o`: per member, `L` when they hold
+    the same Location object, `D` when they hold the same metadata dict. -/
 def shareComp (h : Heap) (c o : Ref) : String :=
   match getComp h c with
   | some x =>
     let own := "|".intercalate (x.members.map fun mb => shareSig h mb o)
+    -- `L`: the same Location object; `D` (round 5): the composite's own metadata dict is `o`'s dict
     let loc := match getComp h o with
-      | some y => if x.shared.any (y.shared.contains ·) then "L" else ""
+      | some y => (if x.shared.any (y.shared.contains ·) then "L" else "") ++ (if x.md = y.md then "D" else "")
       | none => ""
     own ++ loc
   | none => "?"
